@@ -189,11 +189,11 @@ def call_threads(run_ids, w, ignore, throw, schedule, fails, payload):
             u.append(i)
             fut, run = pending.pop(i)
             run = str(run)
-            if not gate.started[run].wait(20):
+            if not gate.started[run].wait(600):
                 gate.free.set()
                 raise AssertionError("task %s was never started by the pool" % run)
             gate.release[run].set()
-            real_wait([fut], timeout=20)
+            real_wait([fut], timeout=600)
             done.append(fut)
             if run in fails and not ignore:
                 gate.free.set()          # the call is about to raise: let the remaining tasks run out
